@@ -66,15 +66,22 @@ impl Guarded {
     /// start right after the leading guard page instead of the end right
     /// before the trailing one.
     pub fn new(len: usize, misalign: usize, flush_left: bool) -> Guarded {
+        Self::new_aligned(len, 16, misalign, flush_left)
+    }
+
+    /// Like `new`, but only `start % align == misalign % align` is guaranteed, so the
+    /// end of the slice is less than `align` bytes away from the guard page.
+    pub fn new_aligned(len: usize, align: usize, misalign: usize, flush_left: bool) -> Guarded {
         assert!(len + 64 <= ARENA, "harness: slice too long for the arena ({})", len);
+        assert!(align.is_power_of_two() && align <= 4096);
         let arena = ARENAS.with(|a| a.borrow_mut().pop()).unwrap_or_else(Arena::new);
-        let m = misalign % 16;
+        let m = misalign % align;
         let start = if flush_left {
             arena.lo() + m
         } else {
             let s = arena.hi() - len;
-            // move down until start % 16 == m
-            s - ((s + 16 - m) % 16)
+            // move down until start % align == m
+            s - ((s + align - m) % align)
         };
         let zone_lo = start.saturating_sub(MARGIN).max(arena.lo());
         let zone_hi = (start + len + MARGIN).min(arena.hi());
